@@ -81,7 +81,10 @@ async def _after(ctl, op, inst=None):
     its ``timeout`` (Server(path_timeout=...)) the way the shipped ones do: a
     call that takes longer raises asyncio.TimeoutError from inside the call."""
     if ctl.armed and ctl.delay and (ctl.delay_ops is None or op in ctl.delay_ops):
-        await asyncio.wait_for(asyncio.sleep(ctl.delay), getattr(inst, "timeout", None))
+        # (honour_timeout=False: a plug-in that does not look at its ``timeout``, as the stock memory and synchronous
+        # backends do not)
+        await asyncio.wait_for(asyncio.sleep(ctl.delay),
+                               getattr(inst, "timeout", None) if getattr(ctl, "honour_timeout", True) else None)
 
 
 def _close_job():
